@@ -37,6 +37,7 @@ META = dict(
 )
 
 TIME_STYLES = ("small_int", "frac", "neg", "two")
+MODES = ["site", "branch", "node", "branch", "node"]
 
 
 # ------------------------------------------------------------------ generation helpers
@@ -64,8 +65,10 @@ def stat_spec(draw, max_nodes=9, min_samples=1, **kw):
     kw.setdefault("populations", False)
     kw.setdefault("extra_flags", False)
     kw.setdefault("min_nodes", max(1, min_samples))
-    spec = draw(gen.ts_spec(max_nodes=max_nodes, min_samples=min_samples, time_styles=TIME_STYLES, **kw))
-    return rescale(spec)
+    base = gen.ts_spec(max_nodes=max_nodes, min_samples=min_samples, time_styles=TIME_STYLES, **kw)
+    if draw(st.integers(0, 7)) > 0:  # a tree sequence without any edge is kept as a rare corner
+        base = base.filter(lambda sp: bool(sp["edges"]))
+    return rescale(draw(base))
 
 
 def window_candidates(spec):
@@ -204,7 +207,7 @@ def gs_case(draw):
         k = draw(st.integers(1, 3))
         case["W"] = [[draw(st.sampled_from(WEIGHTS)) for _ in range(k)] for _ in smp]
     case["func"] = draw(st.sampled_from(FUNCS))
-    case["mode"] = draw(st.sampled_from(["site", "branch", "node"]))
+    case["mode"] = draw(st.sampled_from(MODES))
     case["polarised"] = draw(st.booleans())
     case["span_normalise"] = draw(st.booleans())
     case["strict"] = draw(st.booleans())
@@ -300,7 +303,7 @@ def named_case(draw):
     spec = draw(stat_spec(min_samples=min_samples, max_nodes=10))
     smp = model.samples(spec)
     case = dict(spec=spec, stat=stat)
-    case["mode"] = draw(st.sampled_from(["site", "branch", "node"]))
+    case["mode"] = draw(st.sampled_from(MODES))
     case["span_normalise"] = draw(st.booleans())
     case["kind"], case["coarse"], case["fine"] = draw_windows(draw, spec)
     disjoint = draw(st.booleans())
@@ -624,7 +627,7 @@ def weighted_case(draw):
     if stat == "genetic_relatedness_vector":
         case["mode"] = "branch"
     else:
-        case["mode"] = draw(st.sampled_from(["site", "branch", "node"]))
+        case["mode"] = draw(st.sampled_from(MODES))
     case["span_normalise"] = draw(st.booleans())
     case["kind"], case["coarse"], case["fine"] = draw_windows(draw, spec)
     k = draw(st.integers(1, 3))
@@ -1442,26 +1445,37 @@ def run_shared(case, ctx):
                       lambda: f"job {case['order'][i]} in thread {t}: {val!r} expected {serial[i]!r}")
 
 
+FLOORS_GENERAL_STAT = {'mode=branch': 0.1, 'mode=node': 0.1, 'window_cuts_tree': 0.15, 'multiallelic_site': 0.1, 'multi_root': 0.15, 'strict_f': 0.3, 'sample_count_stat': 0.1, 'window_ends_on_site': 0.05, 'window_without_site': 0.07, 'polarised': 0.1, 'internal_sample_used': 0.1, 'strict_rejects': 0.04}
+FLOORS_NAMED = {'stat=diversity': 0.03, 'stat=segregating_sites': 0.03, 'stat=Y1': 0.03, 'stat=Tajimas_D': 0.03, 'stat=divergence': 0.03, 'stat=genetic_relatedness': 0.03, 'stat=Y2': 0.03, 'stat=f2': 0.03, 'stat=Y3': 0.03, 'stat=f3': 0.03, 'stat=f4': 0.03, 'stat=Fst': 0.03, 'window_cuts_tree': 0.2, 'multiallelic_site': 0.1, 'overlapping_sets': 0.2, 'degenerate_column': 0.05, 'form=single': 0.04, 'form=none': 0.06, 'scalar_result': 0.02, 'multi_root': 0.3, 'internal_sample_used': 0.3}
+FLOORS_AFS = {'mode=branch': 0.1, 'polarised': 0.1, 'folded': 0.3, 'joint': 0.12, 'afs_nonzero': 0.25, 'window_cuts_tree': 0.2, 'multiallelic_site': 0.1}
+FLOORS_WEIGHTED = {'stat=trait_covariance': 0.07, 'stat=trait_correlation': 0.07, 'stat=trait_linear_model': 0.07, 'stat=genetic_relatedness_weighted': 0.07, 'stat=genetic_relatedness_vector': 0.07, 'focal_nodes': 0.01, 'window_cuts_tree': 0.2}
+FLOORS_MATRIX_THREADS = {'threads>1': 0.12, 'partial_windows': 0.04, 'relatedness_matrix_asserted': 0.1, 'divergence_matrix/branch': 0.08, 'form=lists': 0.15, 'window_cuts_tree': 0.2}
+FLOORS_GNN_MEAN_DESCENDANTS = {'gnn_nonzero': 0.25, 'focal_in_reference': 0.3, 'focal_not_in_reference': 0.2, 'non_sample_reference': 0.15, 'num_threads=8': 0.03, 'threads>focal': 0.08, 'mean_descendants_denominators_coincide': 0.15, 'multi_tree': 0.2}
+FLOORS_PAIR_COALESCENCE = {'coalescences': 0.2, 'time_windows=breaks': 0.2, 'pair_normalise': 0.1, 'span_normalise': 0.1, 'multi_tree': 0.25}
+FLOORS_LD_R2 = {'sites=3+': 0.2, 'degenerate_frequency': 0.1, 'r2_array_truncated': 0.12}
+FLOORS_KC_RF = {'trees_differ': 0.3, 'multi_tree': 0.3}
+FLOORS_SHARED_THREADS = {'nthreads=8': 0.05, 'trees>=10': 0.15}
+
 SUBCHECKS = [
-    SubCheck("C08.general_stat", run_gs, strategy=gs_case, quick=1200, thorough=36000, rule=NT,
-             floors={}),
-    SubCheck("C08.named", run_named, strategy=named_case, quick=1200, thorough=36000, rule=NT, floors={}),
-    SubCheck("C08.afs", run_afs, strategy=afs_case, quick=800, thorough=24000, rule=NT, floors={}),
-    SubCheck("C08.weighted", run_weighted, strategy=weighted_case, quick=1000, thorough=30000, rule=NT,
-             floors={}, classify=classify_weighted),
-    SubCheck("C08.matrix_threads", run_matrix, strategy=matrix_case, quick=800, thorough=24000, rule=NT, floors={}),
-    SubCheck("C08.gnn_mean_descendants", run_gnn, strategy=gnn_case, quick=800, thorough=24000,
-             rule=">=1 edge and (>=2 trees or >=2 roots or an internal sample)", floors={}),
-    SubCheck("C08.pair_coalescence", run_coal, strategy=coal_case, quick=600, thorough=18000,
-             rule="some pair coalesces and (>=2 trees or >=2 roots or a polytomy)", floors={}),
-    SubCheck("C08.ld_r2", run_ld, strategy=ld_case, quick=600, thorough=18000,
-             rule=">=2 single-mutation sites and >=1 edge", floors={}),
-    SubCheck("C08.kc_rf", run_dist, strategy=dist_case, quick=400, thorough=12000,
-             rule=">=3 samples (two tree sequences of single-rooted trees without unary nodes)", floors={}),
-    SubCheck("C08.shared_threads", run_shared, strategy=shared_case, quick=150, thorough=4500,
+    SubCheck("C08.general_stat", run_gs, strategy=gs_case, quick=3000, thorough=90000, rule=NT,
+             floors=FLOORS_GENERAL_STAT),
+    SubCheck("C08.named", run_named, strategy=named_case, quick=4000, thorough=120000, rule=NT, floors=FLOORS_NAMED),
+    SubCheck("C08.afs", run_afs, strategy=afs_case, quick=2000, thorough=60000, rule=NT, floors=FLOORS_AFS),
+    SubCheck("C08.weighted", run_weighted, strategy=weighted_case, quick=2500, thorough=75000, rule=NT,
+             floors=FLOORS_WEIGHTED, classify=classify_weighted),
+    SubCheck("C08.matrix_threads", run_matrix, strategy=matrix_case, quick=2000, thorough=60000, rule=NT, floors=FLOORS_MATRIX_THREADS),
+    SubCheck("C08.gnn_mean_descendants", run_gnn, strategy=gnn_case, quick=1500, thorough=45000,
+             rule=">=1 edge and (>=2 trees or >=2 roots or an internal sample)", floors=FLOORS_GNN_MEAN_DESCENDANTS),
+    SubCheck("C08.pair_coalescence", run_coal, strategy=coal_case, quick=1500, thorough=45000,
+             rule="some pair coalesces and (>=2 trees or >=2 roots or a polytomy)", floors=FLOORS_PAIR_COALESCENCE),
+    SubCheck("C08.ld_r2", run_ld, strategy=ld_case, quick=1000, thorough=30000,
+             rule=">=2 single-mutation sites and >=1 edge", floors=FLOORS_LD_R2),
+    SubCheck("C08.kc_rf", run_dist, strategy=dist_case, quick=800, thorough=24000,
+             rule=">=3 samples (two tree sequences of single-rooted trees without unary nodes)", floors=FLOORS_KC_RF),
+    SubCheck("C08.shared_threads", run_shared, strategy=shared_case, quick=200, thorough=6000,
              rule=">=2 trees; K in {2,3,4,8} Python threads each running 10 statistics (6 of them release "
              "the GIL) 1-4 times on one shared tree sequence of 8-40 samples x 2-24 trees; bitwise equal to "
-             "the serial results", floors={}),
+             "the serial results", floors=FLOORS_SHARED_THREADS),
 ]
 
 _PROBE_GRV = dict(
